@@ -10,10 +10,34 @@ import (
 	"go/ast"
 	"go/parser"
 	"go/token"
+	"io/fs"
 	"path/filepath"
+	"sort"
 	"strconv"
 	"strings"
 )
+
+// senderFieldType returns the source text of the type of a field of struct Sender ("" when absent).
+func senderFieldType(f *ast.File, field string) string {
+	out := ""
+	ast.Inspect(f, func(n ast.Node) bool {
+		ts, ok := n.(*ast.TypeSpec)
+		if !ok || ts.Name.Name != "Sender" {
+			return true
+		}
+		if st, ok := ts.Type.(*ast.StructType); ok {
+			for _, fl := range st.Fields.List {
+				for _, nm := range fl.Names {
+					if nm.Name == field {
+						out = exprString(fl.Type)
+					}
+				}
+			}
+		}
+		return false
+	})
+	return out
+}
 
 func init() { register("sender", genSender) }
 
@@ -55,21 +79,81 @@ func exprString(e ast.Expr) string {
 	return fmt.Sprintf("%T", e)
 }
 
+// pkgIntConsts collects the package-level integer constants of a directory (name -> value) so that a literal
+// that was given a name (`const maxUnansweredRequests = 20`) is still read as its value.
+func pkgIntConsts(dir string) map[string]int {
+	out := map[string]int{}
+	fset := token.NewFileSet()
+	pkgs, err := parser.ParseDir(fset, dir, func(fi fs.FileInfo) bool { return !strings.HasSuffix(fi.Name(), "_test.go") }, 0)
+	if err != nil {
+		return out
+	}
+	for _, pk := range pkgs {
+		for _, f := range pk.Files {
+			for _, d := range f.Decls {
+				gd, ok := d.(*ast.GenDecl)
+				if !ok || gd.Tok != token.CONST {
+					continue
+				}
+				for _, sp := range gd.Specs {
+					vs := sp.(*ast.ValueSpec)
+					for i, n := range vs.Names {
+						if i < len(vs.Values) {
+							if lit, ok := vs.Values[i].(*ast.BasicLit); ok && lit.Kind == token.INT {
+								if v, err := strconv.Atoi(lit.Value); err == nil {
+									out[n.Name] = v
+								}
+							}
+						}
+					}
+				}
+			}
+		}
+	}
+	return out
+}
+
+func intOf(e ast.Expr, consts map[string]int) (int, bool) {
+	switch x := e.(type) {
+	case *ast.BasicLit:
+		v, err := strconv.Atoi(x.Value)
+		return v, err == nil
+	case *ast.Ident:
+		v, ok := consts[x.Name]
+		return v, ok
+	case *ast.ParenExpr:
+		return intOf(x.X, consts)
+	}
+	return 0, false
+}
+
 func genSender(outDir string) (string, error) {
 	fset := token.NewFileSet()
 	f, err := parser.ParseFile(fset, filepath.Join(RepoDir(), "spine", "send.go"), nil, 0)
 	if err != nil {
 		return "", err
 	}
+	consts := pkgIntConsts(filepath.Join(RepoDir(), "spine"))
 	var notes []string
 	limit, cap := 0, 0
-	// reqMsgCache limit: `if len(c.reqMsgCache) > N` in addMsgCounterHashToCache
-	if fd := findFunc(f, "Sender", "addMsgCounterHashToCache"); fd != nil {
+	// every Sender method of send.go, by name
+	methods := map[string]*ast.FuncDecl{}
+	for _, d := range f.Decls {
+		if fd, ok := d.(*ast.FuncDecl); ok && fd.Recv != nil && fd.Body != nil && findFunc(f, "Sender", fd.Name.Name) == fd {
+			methods[fd.Name.Name] = fd
+		}
+	}
+	// reqMsgCache limit: the comparison `len(c.reqMsgCache) > N` (or `>= N+1`), N a literal or a named constant,
+	// wherever in the Sender's methods it stands
+	for _, fd := range methods {
 		ast.Inspect(fd, func(n ast.Node) bool {
-			if be, ok := n.(*ast.BinaryExpr); ok && be.Op == token.GTR {
+			if be, ok := n.(*ast.BinaryExpr); ok && (be.Op == token.GTR || be.Op == token.GEQ) {
 				if c, ok := be.X.(*ast.CallExpr); ok && exprString(c.Fun) == "len" && len(c.Args) == 1 && exprString(c.Args[0]) == "c.reqMsgCache" {
-					if lit, ok := be.Y.(*ast.BasicLit); ok {
-						limit, _ = strconv.Atoi(lit.Value)
+					if v, ok := intOf(be.Y, consts); ok {
+						limit = v
+						if be.Op == token.GEQ {
+							limit = v - 1
+						}
 					}
 				}
 			}
@@ -77,14 +161,14 @@ func genSender(outDir string) (string, error) {
 		})
 	}
 	if limit == 0 {
-		notes = append(notes, "anchor `len(c.reqMsgCache) > N` not found in addMsgCounterHashToCache")
+		notes = append(notes, "anchor `len(c.reqMsgCache) > N` not found in the Sender's methods")
 	}
 	// notify cache capacity: lrucache.New[...](N, 0) in NewSender
 	if fd := findFunc(f, "", "NewSender"); fd != nil {
 		ast.Inspect(fd, func(n ast.Node) bool {
 			if c, ok := n.(*ast.CallExpr); ok && exprString(c.Fun) == "lrucache.New" && len(c.Args) >= 1 {
-				if lit, ok := c.Args[0].(*ast.BasicLit); ok {
-					cap, _ = strconv.Atoi(lit.Value)
+				if v, ok := intOf(c.Args[0], consts); ok {
+					cap = v
 				}
 			}
 			return true
@@ -105,14 +189,20 @@ func genSender(outDir string) (string, error) {
 			}
 		}
 	}
-	// the counter is drawn by one atomic add
+	// the counter is drawn by one atomic add: `atomic.AddUint64(&c.msgNum, 1)` or, for a field of type
+	// atomic.Uint64, `c.msgNum.Add(1)`; msgNum is mentioned nowhere else in getMsgCounter
 	counterAtomic := false
 	if fd := findFunc(f, "Sender", "getMsgCounter"); fd != nil {
 		adds, other := 0, 0
 		ast.Inspect(fd, func(n ast.Node) bool {
 			switch x := n.(type) {
 			case *ast.CallExpr:
-				if exprString(x.Fun) == "atomic.AddUint64" && len(x.Args) == 2 && strings.Contains(exprString(x.Args[0].(*ast.UnaryExpr).X), "c.msgNum") {
+				if exprString(x.Fun) == "atomic.AddUint64" && len(x.Args) == 2 {
+					if u, ok := x.Args[0].(*ast.UnaryExpr); ok && u.Op == token.AND && exprString(u.X) == "c.msgNum" {
+						adds++
+					}
+				}
+				if exprString(x.Fun) == "c.msgNum.Add" && len(x.Args) == 1 && senderFieldType(f, "msgNum") == "atomic.Uint64" {
 					adds++
 				}
 			case *ast.SelectorExpr:
@@ -124,24 +214,56 @@ func genSender(outDir string) (string, error) {
 		})
 		counterAtomic = adds == 1 && other == 1 // the only mention of msgNum is inside the atomic add
 	}
-	// every send function draws its counter through getMsgCounter exactly once
-	draws := map[string]int{}
-	for _, name := range []string{"Request", "result", "Reply", "Notify", "Write"} {
-		if fd := findFunc(f, "Sender", name); fd != nil {
-			ast.Inspect(fd, func(n ast.Node) bool {
-				if c, ok := n.(*ast.CallExpr); ok && exprString(c.Fun) == "c.getMsgCounter" {
-					draws[name]++
-				}
-				return true
-			})
+	// every exported way of sending draws its counter exactly once per datagram handed to the connection: call
+	// sites of getMsgCounter and of sendSpineMessage are counted through the calls among the Sender's own methods
+	// (a datagram built in an extracted helper counts for its callers)
+	var count func(name, target string, seen map[string]bool) int
+	count = func(name, target string, seen map[string]bool) int {
+		fd := methods[name]
+		if fd == nil || seen[name] {
+			return 0
 		}
+		seen[name] = true
+		defer delete(seen, name)
+		n := 0
+		ast.Inspect(fd, func(x ast.Node) bool {
+			if c, ok := x.(*ast.CallExpr); ok {
+				if sel, ok := c.Fun.(*ast.SelectorExpr); ok && exprString(sel.X) == "c" {
+					if sel.Sel.Name == target {
+						n++
+					} else if sel.Sel.Name != "getMsgCounter" && sel.Sel.Name != "sendSpineMessage" {
+						n += count(sel.Sel.Name, target, seen)
+					}
+				}
+			}
+			return true
+		})
+		return n
 	}
 	oneDraw := true
-	for _, name := range []string{"Request", "result", "Reply", "Notify", "Write"} {
-		if draws[name] != 1 {
-			oneDraw = false
-			notes = append(notes, fmt.Sprintf("%s draws its counter %d times", name, draws[name]))
+	senders := 0
+	var names []string
+	for name := range methods {
+		names = append(names, name)
+	}
+	sort.Strings(names)
+	for _, name := range names {
+		if !ast.IsExported(name) {
+			continue
 		}
+		sends := count(name, "sendSpineMessage", map[string]bool{})
+		draws := count(name, "getMsgCounter", map[string]bool{})
+		if sends > 0 {
+			senders++
+		}
+		if sends > 1 || draws != sends {
+			oneDraw = false
+			notes = append(notes, fmt.Sprintf("%s hands %d datagram(s) to the connection and draws %d counter(s)", name, sends, draws))
+		}
+	}
+	if senders < 5 {
+		oneDraw = false
+		notes = append(notes, fmt.Sprintf("only %d exported Sender methods reach sendSpineMessage", senders))
 	}
 	var b strings.Builder
 	b.WriteString("/-! GENERATED by go/cmd/translate (generator `sender`) from spine/send.go — do not edit. -/\n")
@@ -150,7 +272,7 @@ func genSender(outDir string) (string, error) {
 	fmt.Fprintf(&b, "/-- capacity passed to lrucache.New in NewSender -/\ndef notifyCacheCap : Nat := %d\n\n", cap)
 	fmt.Fprintf(&b, "/-- Request locks muxRequestSend first and unlocks it by defer: lookup, send and insert are one critical section -/\ndef requestOneRegion : Bool := %v\n\n", requestOneRegion)
 	fmt.Fprintf(&b, "/-- getMsgCounter's only access to msgNum is one atomic.AddUint64 -/\ndef counterAtomic : Bool := %v\n\n", counterAtomic)
-	fmt.Fprintf(&b, "/-- Request, result, Reply, Notify and Write each call getMsgCounter exactly once -/\ndef oneDrawPerSend : Bool := %v\n\n", oneDraw)
+	fmt.Fprintf(&b, "/-- every exported Sender method draws exactly one counter (getMsgCounter) per datagram it hands to the connection (sendSpineMessage), at most one datagram per call; call sites counted through the Sender's own methods -/\ndef oneDrawPerSend : Bool := %v\n\n", oneDraw)
 	for _, n := range notes {
 		fmt.Fprintf(&b, "-- note: %s\n", n)
 	}
